@@ -41,6 +41,8 @@ def inventory(cls: ast.ClassDef):
             name = name.attr if isinstance(name, ast.Attribute) else getattr(name, "id", None)
             if name in MEMO:
                 found.add(f"@{name}:{fn.name}")
+            if isinstance(d, ast.Attribute) and d.attr == "setter":  # a property setter makes the attribute writable from outside
+                found.add(f"setter:{fn.name}")
         init = fn.name == "__init__"
         for n in ast.walk(fn):
             targets = []
@@ -87,4 +89,35 @@ def emit_mutable_state(src, site, mode):
     text = (f"/-- {site['file']} `class {site['cls']}`: attributes initialised to empty containers or written outside `__init__`, "
             f"and memoising decorators -/\ndef {site['name']} : List String :=\n  {body}\n")
     return text, {"line": cls.lineno, "python": f"class {site['cls']}", "rows": len(inv),
+                  "sha": hashlib.sha256(repr(inv).encode()).hexdigest()[:16]}
+
+
+def emit_reads(src, site, mode):
+    """data attributes `self.X` read by the methods `site["methods"]` of class `site["cls"]`, following calls to other methods
+    and properties of the same class transitively (a method or property name itself is not listed, its body is followed)"""
+    tree = src.tree(site["file"])
+    cls = next((n for n in tree.body if isinstance(n, ast.ClassDef) and n.name == site["cls"]), None)
+    if cls is None:
+        raise KeyError(f"class {site['cls']} not found in {site['file']}")
+    methods = {f.name: f for f in cls.body if isinstance(f, (ast.FunctionDef, ast.AsyncFunctionDef))}
+    todo, seen, reads = list(site["methods"]), set(), set()
+    for m in todo:
+        if m not in methods:
+            raise KeyError(f"method {site['cls']}.{m} not found")
+    while todo:
+        m = todo.pop()
+        if m in seen:
+            continue
+        seen.add(m)
+        for n in ast.walk(methods[m]):
+            if isinstance(n, ast.Attribute) and isinstance(n.value, ast.Name) and n.value.id == "self":
+                if n.attr in methods:
+                    todo.append(n.attr)
+                else:
+                    reads.add(n.attr)
+    inv = sorted(reads)
+    body = "[" + ", ".join(f'"{x}"' for x in inv) + "]"
+    text = (f"/-- {site['file']} `class {site['cls']}`: data attributes read (transitively through the class's own methods and properties) "
+            f"by {', '.join(site['methods'])} -/\ndef {site['name']} : List String :=\n  {body}\n")
+    return text, {"line": cls.lineno, "python": f"class {site['cls']}: reads of {site['methods']}", "rows": len(inv),
                   "sha": hashlib.sha256(repr(inv).encode()).hexdigest()[:16]}
